@@ -80,7 +80,15 @@ func (fr *frame) call(st *PState, site ssa.Instruction, c *ssa.CallCommon, k0 fu
 	case *GlobalFuncVal:
 		fr.callFunction(st, v.Name, nil, c.Signature(), args, k)
 	default:
-		_ = ex
+		// callback parameter with an (assumed) callback contract "<function>#<parameter>": the contract says what any
+		// function value passed here may do; guard clauses "before #<parameter> requires ..." apply
+		if p, isParam := c.Value.(*ssa.Parameter); isParam && fr.depth == 0 {
+			if ct, ok := ex.CS.ByFunc[fr.fn.String()+"#"+p.Name()]; ok {
+				fr.checkGuards(st, fr.fn.String()+"#"+p.Name(), c.Signature(), args)
+				fr.applyContract(st, ct, c.Signature(), nil, args, k)
+				return
+			}
+		}
 		fr.havocCall(st, "dynamic call "+c.Value.Name()+" in "+ShortName(fr.fn.String()), c.Signature(), args, k)
 	}
 }
@@ -141,6 +149,7 @@ func (fr *frame) inline(st *PState, fn *ssa.Function, args []Val, k func(*PState
 		}{st2, why})
 	}
 	failed := ""
+	wasBounded := fr.top.bounded
 	func() {
 		defer func() {
 			if r := recover(); r != nil {
@@ -155,6 +164,7 @@ func (fr *frame) inline(st *PState, fn *ssa.Function, args []Val, k func(*PState
 	}()
 	if failed != "" {
 		fr.top.obls = fr.top.obls[:nObls]
+		fr.top.bounded = wasBounded // the abandoned attempt's unrolled loops are not part of the result
 		fr.top.notes["callee "+ShortName(fn.String())+" left the subset ("+failed+"): call havoced"] = true
 		fr.havocCall(backup, fn.String(), fn.Signature, args, k)
 		return
